@@ -291,9 +291,11 @@ func judgeBlame(w *world, k kase, end *faults.End, honest []party.ID) [][2]strin
 		if pe.Status != "error" {
 			continue
 		}
-		relay := strings.Contains(pe.Err, "aborted by other party")
+		// a relay is recognised by what happened (the party was running, was delivered a peer's abort notice
+		// and was in error afterwards), not by the wording of the error
+		from, relay := end.RelayFrom[id]
 		if relay {
-			if len(pe.Culprits) != 1 || !aborted[pe.Culprits[0]] && pe.Culprits[0] != k.Deviator {
+			if len(pe.Culprits) != 1 || pe.Culprits[0] != from || !aborted[from] && from != k.Deviator {
 				out = append(out, [2]string{"relay-names-wrong-party", fmt.Sprintf("party %s relays an abort notice but names %v (aborted parties: %v)", id, pe.Culprits, aborted)})
 			}
 			continue
